@@ -307,6 +307,14 @@ theorem time_varying_iff (j : Nat) (ds : List CRec) :
     · simp only [List.mem_map, recordsOf, List.mem_filter, beq_iff_eq]
       exact ⟨y, ⟨hy, hid.symm⟩, hyb⟩
 
+/-- 7f08375: the per-individual observation counts count RECORDS (a missing DV included) and add up to
+    the number of observation records -/
+theorem nobs_count_total (obs : List (Int × Option Rat)) :
+    ((nObsPerCount obs).map (·.2)).sum = obs.length := nObsPerCount_total obs
+
+/-- 5109c1d: without covariate columns nothing is time varying (and the call is total) -/
+theorem time_varying_no_covariates (ds : List CRec) : listTimeVarying [] ds = [] := rfl
+
 /-- missing values in a first record stay missing: the baseline is not completed from later records -/
 theorem baselines_missing_witness :
     baselines [⟨0, 3, [none, some 30]⟩, ⟨1, 3, [some 70, some 30]⟩, ⟨2, 1, [some 60, none]⟩, ⟨3, 3, [some 71, none]⟩]
